@@ -61,8 +61,9 @@ def shards(tier, seed):
         out += mid[seed % 2::2]
         out += T.shard_list(4, 4, 4, 'narrow', extra={'sub': 'trees', 'quick': 1, 'bounds': 'TREE(4,4,4) narrow x 4 option pairs'})
     else:
-        out += T.shard_list(3, 4, 3, 'mid', empty_nodes=True, pin=3, extra={'sub': 'trees', 'bounds': 'TREE(3,4,3) mid, empty nodes x 10 options'})
-        out += T.shard_list(4, 5, 4, 'narrow', pin=3, extra={'sub': 'trees', 'bounds': 'TREE(4,5,4) narrow x 10 options'})
+        out += T.shard_list(3, 3, 3, 'mid', empty_nodes=True, extra={'sub': 'trees', 'bounds': 'TREE(3,3,3) mid, empty nodes x 10 options'})
+        out += T.shard_list(3, 4, 3, 'mid', pin=3, extra={'sub': 'trees', 'quick': 1, 'bounds': 'TREE(3,4,3) mid x 4 option pairs'})
+        out += T.shard_list(4, 5, 4, 'narrow', pin=3, extra={'sub': 'trees', 'quick': 1, 'bounds': 'TREE(4,5,4) narrow x 4 option pairs'})
     out += T.shard_list(2, 2, 2, 'mid', empty_nodes=True, pin=1, extra={'sub': 'meta', 'bounds': 'TREE(2,2,2) mid x 7 metadata variants x 10 options'})
     full = 5 if q else 6
     for a in C07.SIGMA:
@@ -84,7 +85,7 @@ def shards(tier, seed):
 def cases(shard):
     sub = shard['sub']
     if sub == 'trees':
-        red = shard['alpha'] != 'c01wide' and shard.get('N', 0) >= 3 and shard['B'] <= 4 and shard['D'] <= 4 and shard.get('quick')
+        red = shard['alpha'] != 'c01wide' and shard.get('quick')
         for k, t in enumerate(T.shard_trees(shard)):
             if red:
                 yield {'t': t, 'm': k % len(METAS), 'o': 1}
